@@ -204,7 +204,22 @@ func (c *fctx) aliasCheck() {
 						muts[v] = append(muts[v], use{sel.Pos(), curLoop()})
 					}
 				}
-				for _, a := range s.Args {
+				var ci *fnInfo
+				if callee != nil {
+					ci = c.t.fns[callee]
+				}
+				for i, a := range s.Args {
+					// a pointer handed to a translated function that only reads / writes through it (never stores,
+					// passes on or returns it) does not escape
+					if ci != nil {
+						off := 0
+						if ci.recv != nil {
+							off = 1
+						}
+						if i+off < len(ci.params) && !c.t.paramEscapes(ci, ci.params[i+off]) {
+							continue
+						}
+					}
 					walkExprValue(a)
 				}
 			case *ast.CompositeLit:
@@ -1014,7 +1029,20 @@ func (c *fctx) fuelFor(s *ast.ForStmt) string {
 			return reader == nil
 		})
 		if reader == nil {
-			c.fail(s, "for without condition")
+			// `for { … rand.Int … }`: rejection sampling — it ends with probability 1, no bound follows from the
+			// text; the translation allows Go.unboundedLoopFuel iterations (running out is a fault, i.e. on the safe side)
+			draws := false
+			ast.Inspect(s.Body, func(n ast.Node) bool {
+				if call, ok := n.(*ast.CallExpr); ok && c.pkgFunc(call) == "crypto/rand.Int" {
+					draws = true
+				}
+				return !draws
+			})
+			if !draws {
+				c.fail(s, "for without condition")
+			}
+			c.fi.notes = appendOnce(c.fi.notes, "a loop without a condition around rand.Int (rejection sampling) is bounded by Go.unboundedLoopFuel iterations; running out is a fault")
+			return "Go.unboundedLoopFuel"
 		}
 		return "(" + c.expr(reader) + ").length + 2"
 	}
@@ -1195,4 +1223,61 @@ func isPanicCall(info *types.Info, s *ast.ExprStmt) bool {
 	}
 	b, ok := info.Uses[id].(*types.Builtin)
 	return ok && b.Name() == "panic"
+}
+
+// paramEscapes: does the function use its parameter p as a plain value (stores it, passes it on, returns it, puts it
+// into a literal) rather than only through selectors?  Conservative: any bare occurrence outside a selector base,
+// a nil comparison or a dereference counts.
+func (t *translator) paramEscapes(fi *fnInfo, p *types.Var) bool {
+	if t.escMemo == nil {
+		t.escMemo = map[*types.Var]bool{}
+	}
+	if r, ok := t.escMemo[p]; ok {
+		return r
+	}
+	info := fi.pkg.TypesInfo
+	esc := false
+	var visit func(n ast.Node)
+	visit = func(n ast.Node) {
+		ast.Inspect(n, func(m ast.Node) bool {
+			if esc {
+				return false
+			}
+			switch x := m.(type) {
+			case *ast.SelectorExpr:
+				if id, ok := ast.Unparen(x.X).(*ast.Ident); ok && info.Uses[id] == p {
+					// p.f / p.M(...): through the pointer.  A method call hands p to the method: look there
+					if sel, ok := info.Selections[x]; ok && sel.Kind() == types.MethodVal {
+						if mf, ok := sel.Obj().(*types.Func); ok {
+							if ci := t.fns[mf]; ci != nil && ci.recv != nil && ci != fi {
+								if t.paramEscapes(ci, ci.recv) {
+									esc = true
+								}
+							} else if ci == nil {
+								esc = true
+							}
+						}
+					}
+					return false
+				}
+			case *ast.StarExpr:
+				if id, ok := ast.Unparen(x.X).(*ast.Ident); ok && info.Uses[id] == p {
+					return false
+				}
+			case *ast.BinaryExpr:
+				if v, _ := nilCompared(info, x, map[*types.Var]bool{p: true}); v != nil {
+					return false
+				}
+			case *ast.Ident:
+				if info.Uses[x] == p {
+					esc = true
+				}
+			}
+			return true
+		})
+	}
+	t.escMemo[p] = true // recursion: assume the worst
+	visit(fi.decl.Body)
+	t.escMemo[p] = esc
+	return esc
 }
